@@ -24,6 +24,8 @@ type Exec struct {
 	Notes  []string
 	held   []heldSlice
 	calls  int
+	// CaseID identifies the case independently of search parameters (see Violation.CaseID)
+	CaseID string
 }
 
 type heldSlice struct {
@@ -51,7 +53,7 @@ func (x *Exec) Report(prop, sig, detail string) {
 		x.Notes = append(x.Notes, "other:"+prop+" "+sig)
 		return
 	}
-	x.Viol = append(x.Viol, Violation{Prop: prop, Sig: sig, Detail: detail, Case: x.theCase()})
+	x.Viol = append(x.Viol, Violation{Prop: prop, Sig: sig, Detail: detail, Case: x.theCase(), CaseID: x.CaseID})
 }
 
 func (x *Exec) Note(s string) { x.Notes = append(x.Notes, s) }
